@@ -633,9 +633,16 @@ impl Client {
             .writer
             .lock()
             .map_err(|_| poisoned_lock_error("client writer"))?;
-        write_message(&mut *writer, msg)?;
-        writer.flush()?;
-        Ok(())
+        let written =
+            write_message(&mut *writer, msg).and_then(|()| writer.flush().map_err(RepeError::from));
+        if written.is_err() {
+            // The frame may be partly on the wire (e.g. a write timeout expired
+            // mid-body). Nothing written after it could be framed by the peer,
+            // so fail the connection: the response loop sees the shutdown and
+            // fails every pending call, and later calls error out here.
+            let _ = writer.get_ref().shutdown(Shutdown::Both);
+        }
+        written
     }
 
     fn remove_pending(&self, id: u64) {
